@@ -203,17 +203,56 @@ theorem Store.findSegment_mem {s : Store} {k : String} {seg : Segment}
     (h : s.findSegment k = some seg) : seg ∈ s.segments.map (·.2) :=
   List.mem_map.mpr ⟨_, Store.mem_of_findSegment h, rfl⟩
 
-/-- `ldreason.BigSegmentsStatus` (the four values a provider may return). -/
+/-- `ldreason.BigSegmentsStatus`: in Go an arbitrary string.  The four constants the SDK defines
+have their own constructors; every other NON-EMPTY string a `BigSegmentProvider` may return is
+`other s`.  The empty string is Go's "no status" and is represented by `none : Option Status`
+wherever a status may be absent (`St.status`, `BSAnswer.status`, `Reason.bigSegmentsStatus`);
+`Status.ofString` / `Status.toString` are the two directions of that representation.
+(`other ""` and `other "STALE"` etc. are junk values of the type that `Status.ofString` never
+produces, see `Status.Canonical`.) -/
 inductive Status where
   | healthy | stale | storeError | notConfigured
+  | other (s : String)
   deriving DecidableEq, Repr, Inhabited
+
+/-- The Go string of a status. -/
+def Status.toString : Status → String
+  | .healthy => "HEALTHY" | .stale => "STALE" | .storeError => "STORE_ERROR"
+  | .notConfigured => "NOT_CONFIGURED" | .other s => s
+
+/-- The Go string of a possibly absent status (`""` = no status). -/
+def Status.optToString : Option Status → String
+  | some s => s.toString
+  | none => ""
+
+/-- A Go `ldreason.BigSegmentsStatus` string as the model sees it: `""` is "no status", the four
+constants are their constructors, anything else is `other s`. -/
+def Status.ofString (s : String) : Option Status :=
+  if s = "" then none
+  else if s = "HEALTHY" then some .healthy else if s = "STALE" then some .stale
+  else if s = "STORE_ERROR" then some .storeError
+  else if s = "NOT_CONFIGURED" then some .notConfigured
+  else some (.other s)
+
+/-- One of the four constants the SDK defines. -/
+def Status.isConstant : Status → Bool
+  | .other _ => false
+  | _ => true
+
+/-- The values `Status.ofString` produces: `other s` only for a string that is neither empty nor
+one of the four constants. -/
+def Status.Canonical : Status → Prop
+  | .other s => s ≠ "" ∧ s ≠ "HEALTHY" ∧ s ≠ "STALE" ∧ s ≠ "STORE_ERROR" ∧ s ≠ "NOT_CONFIGURED"
+  | _ => True
 
 /-- A `BigSegmentMembership`: `none` = nil interface; otherwise ref ↦ included?/excluded?. -/
 abbrev Membership := Option (List (String × Bool))
 
+/-- What `GetMembership` returns.  `status = none` is the Go status `""` (a provider is free to
+return it). -/
 structure BSAnswer where
   membership : Membership := none
-  status : Status := .healthy
+  status : Option Status := some .healthy
   deriving Inhabited
 
 /-- A `BigSegmentProvider` for the duration of one call: a table by context key plus the answer
